@@ -126,6 +126,17 @@ func (s *c17Shared) run(op c17Op) []byte {
 	case "verify-bad":
 		ok, _ := sm2.VerifyHashed(s.px[op.i], s.py[op.i], s.e[(op.i+1)%len(s.e)], s.sigR[op.i], s.sigS[op.i])
 		return []byte(fmt.Sprint(ok))
+	case "verify-infinity":
+		// a signature for which the verifier's point [s]G + [t]P is the point at infinity (s = -t*d, r = t - s): a rejection that
+		// leaves through its own exit, which may release or recycle what the ordinary paths keep
+		tv := new(big.Int).SetBytes(gen.RandBytes(randFrom(op.seed), 40))
+		tv.Mod(tv, sm2gen.NM1).Add(tv, big.NewInt(1))
+		sv := new(big.Int).Mul(tv, new(big.Int).SetBytes(s.d[op.i]))
+		sv.Neg(sv).Mod(sv, sm2gen.N)
+		rv := new(big.Int).Sub(tv, sv)
+		rv.Mod(rv, sm2gen.N)
+		ok, err := sm2.VerifyHashed(s.px[op.i], s.py[op.i], s.e[op.j], gen.Pad32(rv), gen.Pad32(sv))
+		return []byte(fmt.Sprint(ok, err))
 	case "derive":
 		x, y, err := sm2.DerivePublic(s.d[op.i])
 		return []byte(fmt.Sprintf("%x|%x|%v", x, y, err))
@@ -195,7 +206,7 @@ func (s *c17Shared) run(op c17Op) []byte {
 	panic("unknown op " + op.kind)
 }
 
-var c17Kinds = []string{"encrypt", "decrypt", "seal", "seal", "open", "open", "open-forged", "newcipher", "derive-aead", "derive-aead", "gc", "sign", "verify", "verify", "verify-bad", "derive", "genkey", "signmsg", "signmsg", "za", "za", "hash", "sumsm3", "oncurve",
+var c17Kinds = []string{"encrypt", "decrypt", "seal", "seal", "open", "open", "open-forged", "newcipher", "derive-aead", "derive-aead", "gc", "sign", "verify", "verify", "verify", "verify-bad", "verify-infinity", "derive", "genkey", "signmsg", "signmsg", "za", "za", "hash", "sumsm3", "oncurve",
 	"za-long-id", "sign-long-id", "verify-long-id", "sign-bad-key", "sign-dead-reader", "verify-malformed", "derive-bad-key", "open-short", "newcipher-bad-key"}
 
 var (
